@@ -37,11 +37,13 @@ Definition bwrap (x n : Z) : Z := x mod 2 ^ n.
 
 (* ---------------------------------------------------------------- types.lua *)
 
-(* IntegralType:wrap_value on an integral value *)
+(* IntegralType:wrap_value on an integral value (as repaired by 59c538f: reduce modulo 2^bits,
+   then move the upper half down for signed types) *)
 Definition wrap_value (t : ity) (v : Z) : Z :=
   if in_rangeb t v then v
-  else if sgn t && (tmax t <? v) then - bwrap (- v) (bits t)
-  else bwrap v (bits t).
+  else
+    let w := bwrap v (bits t) in
+    if sgn t && (tmax t <? w) then w - 2 ^ bits t else w.
 
 Fixpoint first_fit (l : list ity) (minbits v : Z) : option ity :=
   match l with
@@ -100,12 +102,16 @@ Definition raw_value (o : binop) (t0 : ity) (a b : Z) : Z + Z :=
   match o with
   | Badd => inl (a + b) | Bsub => inl (a - b) | Bmul => inl (a * b)
   | Bidiv => inl (a / b) | Bmod => inl (a mod b)
-  | Btdiv => if (a =? tmin t0) && (b =? -1) then inr ERR_DIVOVERFLOW else inl (Z.quot a b)
-  | Btmod => if (a =? tmin t0) && (b =? -1) then inr ERR_DIVOVERFLOW else inl (Z.rem a b)
+  (* 19ab3fb: 'divide overflow' only when no wider type exists (type.size >= int64.size) *)
+  | Btdiv => if (a =? tmin t0) && (b =? -1) && (64 <=? bits t0) then inr ERR_DIVOVERFLOW else inl (Z.quot a b)
+  | Btmod => if (a =? tmin t0) && (b =? -1) && (64 <=? bits t0) then inr ERR_DIVOVERFLOW else inl (Z.rem a b)
   | Bbor => inl (wrap_value t0 (Z.lor a b))
   | Bbxor => inl (wrap_value t0 (Z.lxor a b))
   | Bband => inl (wrap_value t0 (Z.land a b))
-  | Bshl => inl (wrap_value t0 (bshl a b))
+  (* 8e71f3c: |b| >= bitsize gives 0; a negative count shifts the representation of the type *)
+  | Bshl =>
+      if (bits t0 <=? b) || (b <=? - bits t0) then inl 0
+      else let a' := if b <? 0 then bwrap a (bits t0) else a in inl (wrap_value t0 (bshl a' b))
   | Bshr =>
       let a' := if (a <? 0) && (0 <? b) then bwrap (Z.lor a (2 ^ (bits t0 - 1))) (bits t0) else a in
       inl (wrap_value t0 (bshr a' b))
@@ -133,7 +139,7 @@ Definition fold_bin (o : binop) (lt rt : ity) (a b : Z) (lu ru : bool) : fres :=
 
 Definition fold_un (o : unop) (t : ity) (a : Z) : fres :=
   match o with
-  | Uunm => Fval (promote_type_for_value t (- a)) (- a)
+  | Uunm => let t' := promote_type_for_value t (- a) in Fval t' (wrap_value t' (- a))  (* a0670f6 *)
   | Ubnot => Fval t (wrap_value t (Z.lnot a))
   end.
 
@@ -219,8 +225,11 @@ Definition rt_bin (o : binop) (lt rt : ity) (a b : Z) : rres :=
   | Bbor => of_val t (c_or Gnu lt rt a b)
   | Bbxor => of_val t (c_xor Gnu lt rt a b)
   | Bband => of_val t (c_and Gnu lt rt a b)
-  | Btdiv => of_val t (c_div Gnu lt rt a b)
-  | Btmod => of_val t (c_mod Gnu lt rt a b)
+  (* 03b0ae0: mixed signedness is done in the result type: ((T)a / (T)b) *)
+  | Btdiv => if mixed lt rt then of_val t (obind (c_conv Gnu t a) (fun a' => obind (c_conv Gnu t b) (c_div Gnu t t a')))
+             else of_val t (c_div Gnu lt rt a b)
+  | Btmod => if mixed lt rt then of_val t (obind (c_conv Gnu t a) (fun a' => obind (c_conv Gnu t b) (c_mod Gnu t t a')))
+             else of_val t (c_mod Gnu lt rt a b)
   | Bidiv => if sgn lt || sgn rt then of_call t (lookup1 t idiv_table) [a; b] else of_val t (c_div Gnu lt rt a b)
   | Bmod => if sgn lt || sgn rt then of_call t (lookup1 t imod_table) [a; b] else of_val t (c_mod Gnu lt rt a b)
   | Bshl => of_call t (lookup1 t shl_table) [a; b]
